@@ -120,6 +120,10 @@ where
         let data = self.stream.buf_mut().take_chunk(self.remaining_data);
 
         match (data, end) {
+            // The stream ended inside a DATA payload (WebTransport payload has no length)
+            (None, true) if self.remaining_data != usize::MAX => {
+                Poll::Ready(Err(FrameStreamError::UnexpectedEnd))
+            }
             (None, true) => Poll::Ready(Ok(None)),
             (None, false) => Poll::Pending,
             (Some(d), true)
